@@ -43,6 +43,16 @@ def streams_hook(tel, sync_time=1600000000.0, first_timestamp=123.0, int_time=2.
             if st['targets'] is not None:
                 where = cb if st.get('targets_in_cb', True) else view
                 where['targets'] = {'%s, radec, %d, -30' % (t, 10 * k): t for k, t in enumerate(st['targets'])}
+            # explicit solution histories: {ptype: [[offset in dumps after the middle of the first dump, magnitude,
+            # phase in turns], ...]} - one gain for all inputs (offsets may be negative: before the first dump)
+            for ptype, sols in (st.get('solutions') or {}).items():
+                from fractions import Fraction as _Fr
+                for off, mag, ph in sols:
+                    m, p = float(_Fr(mag)), float(_Fr(ph))
+                    exact = {0.0: 1, 0.25: 1j, 0.5: -1, -0.25: -1j}.get(p)
+                    z = m * (exact if exact is not None else np.exp(2j * np.pi * p))
+                    cb.add('product_' + ptype, np.full((max(len(st['pols']), 1), max(len(st['ants']), 1)), z, np.complex64),
+                           ts=sync_time + first_timestamp + int_time * float(_Fr(off)))
             for ptype in st['types']:
                 cb.add('product_' + ptype,
                        product_value(ptype, int(st['n_chans']), max(len(st['pols']), 1), max(len(st['ants']), 1), k),
